@@ -144,7 +144,11 @@ def run_real(scn, perturb_seed=None, timeout=15.0):
                 except socket.timeout:
                     continue
                 except OSError:
+                    # ECONNRESET: the server closed while bytes of ours were still unread on its side
+                    # (pipelined data behind a closing request); the kernel may have thrown away what we
+                    # had not read yet -- a TCP effect the Sim does not model
                     res["eof"] = True
+                    res["reset"] = True
                     return pred()
                 if not d:
                     res["eof"] = True
@@ -273,5 +277,6 @@ def boundary(scn, conns, log_events):
                 ok = apps.check_ident_payload(body, int(cid), int(idx)) is None
             finals.append((r["status"], tag[0].decode() if tag else None, ok, len(body), bool(r.get("complete"))))
         execs = [idx for cid, idx, what in log_events if cid == i and what == "enter"]
-        out.append({"finals": finals, "eof": bool(c.get("eof", False)), "executed": execs, "wire_error": err is not None})
+        out.append({"finals": finals, "eof": bool(c.get("eof", False)), "executed": execs, "wire_error": err is not None,
+                    "reset": bool(c.get("reset") or c.get("send_error"))})
     return out
